@@ -22,6 +22,7 @@ import (
 	"github.com/kardiachain/go-kardia/lib/p2p/pex"
 	"github.com/kardiachain/go-kardia/lib/service"
 	"github.com/kardiachain/go-kardia/mainchain/tx_pool"
+	bcproto "github.com/kardiachain/go-kardia/proto/kardiachain/blockchain"
 	"github.com/kardiachain/go-kardia/types"
 	"github.com/kardiachain/go-kardia/types/evidence"
 
@@ -48,6 +49,7 @@ type logCapture struct {
 	mu       sync.Mutex
 	failures []consFailure
 	errors   int64
+	stopWhy  string
 	fmtr     log.Format
 }
 
@@ -72,6 +74,15 @@ func (lc *logCapture) Log(r *log.Record) error {
 	}
 	if r.Lvl <= log.LvlError {
 		atomic.AddInt64(&lc.errors, 1)
+		if r.Msg == "Stopping peer for error" {
+			for i := 0; i+1 < len(r.Ctx); i += 2 {
+				if k, _ := r.Ctx[i].(string); k == "err" {
+					lc.mu.Lock()
+					lc.stopWhy = fmt.Sprint(r.Ctx[i+1])
+					lc.mu.Unlock()
+				}
+			}
+		}
 	}
 	if r.Lvl <= log.LvlInfo && atomic.LoadInt32(&formatLogs) != 0 {
 		b := lc.fmtr.Format(r)
@@ -82,6 +93,12 @@ func (lc *logCapture) Log(r *log.Record) error {
 		}
 	}
 	return nil
+}
+
+func (lc *logCapture) lastStop() string {
+	lc.mu.Lock()
+	defer lc.mu.Unlock()
+	return lc.stopWhy
 }
 
 func (lc *logCapture) takeFailures() []consFailure {
@@ -226,6 +243,7 @@ type Env struct {
 	byCh     map[byte]p2p.Reactor
 	nameByCh map[byte]string
 	DeadWhy  string
+	Anchor   *StubPeer
 	queued   int // messages put on the consensus queue while nobody drains it (syncing)
 }
 
@@ -259,7 +277,7 @@ func NewEnv(mode string, height uint64) (*Env, error) {
 	if mode == "caughtup" {
 		e.V = nt.Nodes[0]
 	} else {
-		v, err := netsim.BuildNode(9, nt.Gen, netsim.Key(9), nil, nil, nil, netsim.NodeOpts{NoKey: true, Dir: filepath.Join(e.Dir, "victim"), Config: nodeOpts(9).Config})
+		v, err := netsim.BuildNode(9, nt.Gen, netsim.Key(9), nil, nil, nil, netsim.NodeOpts{Dir: filepath.Join(e.Dir, "victim"), Config: nodeOpts(9).Config})
 		if err != nil {
 			return nil, fmt.Errorf("build observer: %w", err)
 		}
@@ -268,6 +286,8 @@ func NewEnv(mode string, height uint64) (*Env, error) {
 	}
 	fs := configs.DefaultFastSyncConfig()
 	fs.Enable = mode == "syncing"
+	// the sync must not end by a timeout while the case runs (wall-clock timers of the scheduler)
+	fs.PeerTimeout, fs.SyncTimeout = time.Hour, time.Hour
 	e.wire(fs)
 	// start: the victim's consensus state is started by its manager, as in production
 	for _, n := range nt.Nodes {
@@ -290,7 +310,50 @@ func NewEnv(mode string, height uint64) (*Env, error) {
 			return nil, fmt.Errorf("network did not reach height %d: %+v", height, res)
 		}
 	}
+	if mode == "syncing" {
+		// An honest peer that announced blocks and is slow to deliver them keeps the node in fast-sync
+		// mode (without it the scheduler declares the sync finished as soon as the first peer leaves).
+		if err := e.anchor(); err != nil {
+			return nil, err
+		}
+	}
 	return e, nil
+}
+
+// anchor connects an honest peer that announces two blocks, delivers the first one
+// (which marks it as responsive) and is slow with the second: the node stays in
+// fast-sync mode.
+func (e *Env) anchor() error {
+	e.Anchor = e.AddPeer(true)
+	b, _ := blockchain.EncodeMsg(&bcproto.StatusResponse{Base: 1, Height: 2})
+	e.BC.Receive(blockchain.BlockchainChannel, e.Anchor, b)
+	deadline := time.Now().Add(10 * time.Second)
+	for time.Now().Before(deadline) {
+		for _, o := range e.Anchor.takeOut() {
+			if o.Ch != blockchain.BlockchainChannel {
+				continue
+			}
+			m, err := blockchain.DecodeMsg(o.Bytes)
+			if err != nil {
+				continue
+			}
+			if rq, ok := m.(*bcproto.BlockRequest); ok && rq.Height == 1 {
+				blk := e.Net.Nodes[1].BO.LoadBlock(1)
+				if blk == nil {
+					return fmt.Errorf("anchor: no block 1")
+				}
+				pb, err := blk.ToProto()
+				if err != nil {
+					return err
+				}
+				rb, _ := blockchain.EncodeMsg(&bcproto.BlockResponse{Block: pb})
+				e.BC.Receive(blockchain.BlockchainChannel, e.Anchor, rb)
+				return nil
+			}
+		}
+		time.Sleep(2 * time.Millisecond)
+	}
+	return fmt.Errorf("anchor: the node never requested block 1")
 }
 
 func (e *Env) add(name string, r p2p.Reactor) {
@@ -431,6 +494,7 @@ func (e *Env) Close() {
 		e.V.Stop(false)
 	}
 	e.Net.Close()
+	func() { defer func() { recover() }(); e.V.WAL.Stop() }()
 	os.RemoveAll(e.Dir)
 }
 
